@@ -154,6 +154,18 @@ Theorem C09_interpolate_poly_values : forall (F : Type) (O : FOps F), FLaws O ->
 Proof. exact @interpolate_poly_correct. Qed.
 Print Assumptions C09_interpolate_poly_values.
 
+(* ... and for ARBITRARY values v the interpolant evaluates back to v: with C09_interpolate_spec, interpolate_poly
+   returns THE polynomial with < n coefficients through the given values (existence and uniqueness) *)
+Theorem C09_interpolate_unique : forall (F : Type) (O : FOps F), FLaws O ->
+  forall (two_adicity : nat) (tw itw : list F) (K : nat) (w winv : F) (v : list F),
+  length v = 2 ^ S K -> length tw = 2 ^ K -> length itw = 2 ^ K -> S K <= two_adicity ->
+  root_cond O (S K) w -> fmul O w winv = fone O -> tw_ok O tw (S K) w -> tw_ok O itw (S K) winv ->
+  fmul O (two_pow_f O (S K)) (n_inv O (S K)) = fone O ->
+  exists c, interpolate_poly O two_adicity v itw = Some c /\ length c = 2 ^ S K /\
+            evaluate_poly O two_adicity c tw = Some v.
+Proof. exact @evaluate_interpolate. Qed.
+Print Assumptions C09_interpolate_unique.
+
 (* degree inference: degree_of is the index of the last non-zero coefficient (0 for the zero polynomial), and
    infer_degree of the evaluations of p over offset*<w> is degree_of p *)
 Theorem C09_degree_of_spec : forall (F : Type) (O : FOps F), FLaws O -> forall (p : list F) (d : nat),
@@ -188,6 +200,16 @@ Theorem C09_segments_spec : forall (F : Type) (O : FOps F), FLaws O ->
       rm_get O M c r = Some (peval O (nth c polys []) (fmul O offset (fpow O g r))).
 Proof. exact @segments_correct. Qed.
 Print Assumptions C09_segments_spec.
+
+(* ColMatrix::evaluate_columns_over(domain): every column evaluated over the coset, every column count *)
+Theorem C09_evaluate_columns_spec : forall (F : Type) (O : FOps F), FLaws O ->
+  forall (root_of_unity : nat -> F) (two_adicity : nat) (polys : list (list F)) (tw : list F) (K b : nat) (g offset : F),
+  polys <> [] -> (forall p, In p polys -> length p = 2 ^ S K) -> length tw = 2 ^ K -> S K + b <= two_adicity ->
+  root_of_unity (S K + b) = g -> root_cond O (S K + b) g -> tw_ok O tw (S K) (fpow O g (2 ^ b)) -> offset <> fzero O ->
+  evaluate_columns_over O two_adicity root_of_unity polys tw offset (2 ^ b)
+    = Some (map (fun p => map (fun i => peval O p (fmul O offset (fpow O g i))) (seq 0 (2 ^ (S K + b)))) polys).
+Proof. exact @evaluate_columns_over_correct. Qed.
+Print Assumptions C09_evaluate_columns_spec.
 
 (* ------------------------------------------------------------------ non-vacuity (Z/17, w = 3 of order 16) *)
 Theorem C09_nonvacuous_field : FLaws f17_ops.
